@@ -5,7 +5,7 @@
 set -u
 src=$1; id=$2
 wt=/tmp/confirm/$id
-export CARGO_TARGET_DIR=/tmp/confirm/target
+export CARGO_TARGET_DIR=${CONFIRM_TARGET:-/tmp/confirm/target}
 export CARGO_NET_OFFLINE=true
 mkdir -p /tmp/confirm
 rm -rf "$wt"; git -C /repo worktree prune; git -C /repo worktree add -q --detach "$wt" HEAD || exit 3
@@ -22,9 +22,14 @@ t1=$?
 [ $t1 -eq 0 ] || { cargo test --offline --lib -- --skip closest_nodes::tests::simulation --skip concurrent_put_mutable_different >>$log 2>&1; t1=$?; }
 demo_cmd=$(python3 -c "import json,sys; print(json.load(open('$src/meta.json')).get('demo_cmd',''))")
 # demo application: demo.diff if present, else copy files
+if [ ! -f "$src/demo.diff" ] && ls "$src"/*.rs >/dev/null 2>&1; then t=$(mktemp -d); ( cd $t && git init -q && mkdir tests && cp "$src"/*.rs tests/ && git add -A -N . && git diff > "$src/demo.diff" ); rm -rf $t; fi
 if [ -f "$src/demo.diff" ]; then git add -A; git apply "$src/demo.diff" >>$log 2>&1 || git apply --3way "$src/demo.diff" >>$log 2>&1 || { res "DEMO-APPLY-FAILED"; cleanup; exit 6; }; git reset -q; fi
 # strip leading 'git apply ... &&' and 'cd ... &&' parts from demo_cmd
-mkdir -p tests; cmd=$(echo "$demo_cmd" | sed -E 's/^(cd [^&]*&& *)?(git apply [^&]*&& *)?//')
+mkdir -p tests; cmd=$(python3 -c "
+import re,sys
+c=sys.argv[1]
+m=re.search(r'((?:RUSTFLAGS=(?:\"[^\"]*\"|\S+) +)?cargo test[^#&;|]*)', c)
+print(m.group(1).strip() if m else c)" "$demo_cmd")
 res "demo cmd: $cmd"
 ( eval "$cmd" ) >>$log 2>&1; with=$?
 # now remove the patch but keep the demo
